@@ -34,13 +34,16 @@ ReqDtypes(c) == CASE c \in {"IntensitySignal", "FullStokesSignal"} -> <<"float64
 Shapes == {<<>>, <<0>>, <<3>>, <<3, 0>>, <<0, 0>>, <<0, 2, 0>>, <<0, 2, 4, 0>>, <<3, 1>>, <<3, 2>>, <<0, 2>>, <<3, 2, 4>>, <<3, 2, 2>>,
            <<3, 2, 3>>, <<3, 2, 0>>, <<0, 2, 4>>, <<0, 1, 2>>, <<3, 2, 4, 1>>, <<3, 2, 2, 3>>,
            <<3, 2, 2, 0>>, <<3, 1, 4, 2, 2>>}
+\* "bf4", "bf8", "bc8", "bc16": float32 / float64 / complex64 / complex128 in NON-NATIVE byte order (straight
+\* from a file); they are not members of any allowed set and are converted to the native first entry
 DTypes == {"bool", "int8", "int32", "int64", "uint8", "uint64", "float16", "float32", "float64",
-           "longdouble", "complex64", "complex128", "clongdouble", "object", "str"}
-RealSafe == {"bool", "int8", "int32", "int64", "uint8", "uint64", "float16", "float32", "float64"}
+           "longdouble", "complex64", "complex128", "clongdouble", "object", "str",
+           "bf4", "bf8", "bc8", "bc16"}
+RealSafe == {"bool", "int8", "int32", "int64", "uint8", "uint64", "float16", "float32", "float64", "bf4", "bf8"}
 \* numpy.can_cast(dt, target, 'safe')
 SafeCast(dt, target) ==
   CASE target = "float64" -> dt \in RealSafe
-    [] target = "complex128" -> dt \in RealSafe \cup {"complex64", "complex128"}
+    [] target = "complex128" -> dt \in RealSafe \cup {"complex64", "complex128", "bc8", "bc16"}
     [] OTHER -> FALSE
 
 \* catalogues: kind -> "ok" | "err" | "either" (accepted-or-refused is not fixed by the property)
@@ -53,7 +56,8 @@ CfKinds == [GHz1 |-> "ok", zero |-> "ok", neg |-> "ok", kHz5 |-> "ok",
 StartKinds == [none |-> "ok", time |-> "ok", time_mjd |-> "ok", time_tai |-> "ok", time_subns |-> "ok",
                time_array1 |-> "err", isot_str |-> "either",
                float |-> "err", time_array |-> "err", garbage |-> "err", list |-> "err"]
-MetaKinds == [none |-> "ok", dict |-> "ok", empty |-> "ok", pairs |-> "either",
+MetaKinds == [none |-> "ok", dict |-> "ok", empty |-> "ok", mappingproxy |-> "ok", ordered |-> "ok",
+              pairs |-> "either",
               int |-> "err", string |-> "err", list_ints |-> "err"]
 AlignKinds == [bottom |-> "ok", center |-> "ok", top |-> "ok",
                middle |-> "err", none |-> "err", one |-> "err", upper |-> "err"]
